@@ -282,6 +282,14 @@ def check_corruptions(spec, ctx):
         expect_refusal(ctx, "CDSInterval:frames_length", lambda: CDSInterval(cs_, ce_, S_, fr[:-1]), valid_interval)
         expect_refusal(ctx, "CDSInterval:mixed_frame_phase", lambda: CDSInterval(cs_ + [ce_[-1] + 2], ce_ + [ce_[-1] + 4], S_, fr + [CDSPhase.ZERO]), valid_interval)
         expect_refusal(ctx, "CDSInterval:empty", lambda: CDSInterval([cs_[0]], [cs_[0]], S_, [CDSFrame.ZERO]), valid_interval)
+        # the refusals above leave nothing behind: a valid CDS annotated with GFF3 phases is accepted afterwards (twice) and
+        # holds exactly its own frames, one per block
+        for again in (0, 1):
+            try:
+                ctl = CDSInterval(cs_, ce_, S_, [CDSPhase({0: 0, 1: 2, 2: 1}[x]) for x in t["frames"]])
+                ctx.eq("CDSInterval:valid_phases_after_refusals:frames", [f_.value for f_ in ctl.frames], list(t["frames"]), extra=again)
+            except Exception as e:
+                ctx.fail("CDSInterval:valid_phases_refused_after_refusals", repr(e)[:120])
         expect_refusal(ctx, "CDSInterval:unequal_lists", lambda: CDSInterval(cs_, ce_ + [ce_[-1] + 1], S_, fr), valid_interval)
     # --- a CDS holding a codon that is not a strict codon: the lenient translation answers, the strict one refuses (documented
     # ValueError) - on a fresh object and on the object the lenient translation was asked of just before
